@@ -62,6 +62,12 @@ theorem pass1_skip (F : List Seg) : ∀ (s : Seg) (rest : List Seg) (t : Int) (P
       rw [harith]
       simp only [List.append_assoc, List.singleton_append]
 
+/-- bridging lemma for the second pass as transcribed from the source: a segment in front of the one found counts
+    exactly when it belongs to the same file, it is ADDED, and the loop visits the segments in front (`p2 < p1`) -/
+theorem pass2_agrees (a b : Nat) :
+    (NV.Gen.C18.pass2Adds a b = true ↔ a = b) ∧ NV.Gen.C18.pass2Sign = 1 ∧ NV.Gen.C18.pass2LoopOp = "<" := by
+  refine ⟨by simp [NV.Gen.C18.pass2Adds], rfl, by decide⟩
+
 theorem pass2_eq (P : List Seg) (f : Nat) : ∀ t : Int, pass2 P f t = t + segOf P f := by
   unfold pass2
   induction P with
@@ -70,9 +76,17 @@ theorem pass2_eq (P : List Seg) (f : Nat) : ∀ t : Int, pass2 P f t = t + segOf
     intro t
     simp only [List.foldl_cons]
     rw [ih]
+    have hs : NV.Gen.C18.pass2Sign = 1 := (pass2_agrees 0 0).2.1
     by_cases h : a.file = f
-    · simp [h, segOf]; omega
-    · simp [h, segOf]
+    · have hb : NV.Gen.C18.pass2Adds a.file f = true := (pass2_agrees a.file f).1.2 h
+      simp only [hb, hs, if_true]
+      simp [h, segOf]; omega
+    · have hb : NV.Gen.C18.pass2Adds a.file f = false := by
+        cases hx : NV.Gen.C18.pass2Adds a.file f with
+        | false => rfl
+        | true => exact absurd ((pass2_agrees a.file f).1.1 hx) h
+      simp only [hb, Bool.false_eq_true, if_false]
+      simp [h, segOf]
 
 /-- an absolute line that falls into segment `s` decodes to file `s.file`, continuing the earlier segments of
     that file -/
